@@ -1,5 +1,6 @@
 import ChythonModel.Model.Graph
 import ChythonModel.Gen.C02Tables
+import ChythonModel.Model.Stereo
 /-!
 # C02 — model of the SMILES writer `Smiles._smiles` / `MoleculeSmiles._format_atom/_format_bond/_format_cxsmiles`
 (`chython/algorithms/smiles.py`)
@@ -56,12 +57,13 @@ inductive Err
   | keyError        -- a dict lookup the source performs without a default failed
   | script          -- the supplied iteration orders / random draws do not fit the molecule (harness error, not Python)
   | fuel            -- a fuel bound was hit (never on well-formed input; reported, not defaulted)
-  | unsupported     -- stereo marks requested (outside this model)
+  | valueError      -- `_translate_tetrahedron_sign`: invalid atoms list / `tuple.index`
+  | stopIteration   -- `next(x for x in adjacency[t] if x in env)` exhausted
   deriving Repr, DecidableEq, Inhabited
 
 def Err.name : Err → String
   | .indexError => "crash:IndexError" | .keyError => "crash:KeyError" | .script => "script" | .fuel => "fuel"
-  | .unsupported => "unsupported"
+  | .valueError => "crash:ValueError" | .stopIteration => "crash:StopIteration"
 
 /-! ## small Python pieces -/
 
@@ -122,6 +124,8 @@ structure Env where
   setOrders : List (List Nat)                -- iteration order of `atoms_set` at the start of round 0, 1, …
   front : List ((Nat × Nat) × List Nat)      -- iteration order of `bonds[child].keys() - {parent}` per (child, parent)
   draws : List (Nat × Nat)                   -- random mode: `(atom, draw)` in call order
+  tetra : List (Nat × List Nat) := []        -- `stereogenic_tetrahedrons` (dict order)
+  cumul : List (List Nat × Stereo.Ends) := []  -- `stereogenic_cumulenes`: path → (n0, n1, n2, n3) (dict order)
   deriving Repr, Inhabited
 
 /-! ## the traversal state -/
@@ -327,6 +331,154 @@ def closureAtoms (smi : List FTok) (tokens : List (Nat × List (Nat × Nat))) : 
     | .atom n => if alHas tokens n then some n else none
     | _ => none
 
+/-! ## stereo marks: tables derived from `stereogenic_cumulenes`, `__ct_map`, chirality of an atom token -/
+
+def ofPy {α} : Except Stereo.PyErr α → Except Err α
+  | .ok a => .ok a
+  | .error .keyError => .error .keyError
+  | .error .valueError => .error .valueError
+  | .error .stopIteration => .error .stopIteration
+
+/-- the cached tables of `MoleculeStereo` the writer reads, derived from `stereogenic_cumulenes` exactly as the properties do -/
+structure SEnv where
+  tetra : List (Nat × List Nat) := []
+  sct : List ((Nat × Nat) × Stereo.Ends) := []     -- stereogenic_cis_trans
+  ctc : List (Nat × (Nat × Nat)) := []              -- _stereo_cis_trans_centers
+  ctt : List (Nat × (Nat × Nat)) := []              -- _stereo_cis_trans_terminals
+  ctcp : List (Nat × Nat) := []                     -- _stereo_cis_trans_counterpart
+  allenes : List (Nat × Stereo.Ends) := []          -- stereogenic_allenes
+  allTerm : List (Nat × (Nat × Nat)) := []          -- _stereo_allenes_terminals
+  deriving Repr, Inhabited
+
+def sEnvOf (env : Env) : SEnv :=
+  env.cumul.foldl (fun (se : SEnv) (pe : List Nat × Stereo.Ends) =>
+    let path := pe.1
+    match path.head?, path.getLast? with
+    | some n, some m =>
+      let i := path.length / 2
+      if path.length % 2 == 1 then
+        match path[i]? with
+        | some c => { se with allenes := alSet se.allenes c pe.2, allTerm := alSet se.allTerm c (n, m) }
+        | none => se
+      else
+        match path[i - 1]?, path[i]? with
+        | some a, some b =>
+          { se with sct := se.sct.filter (·.1 != (n, m)) ++ [((n, m), pe.2)],
+                    ctc := alSet (alSet se.ctc n (a, b)) m (a, b),
+                    ctt := alSet (alSet (alSet (alSet se.ctt n (n, m)) m (n, m)) b (n, m)) a (n, m),
+                    ctcp := alSet (alSet se.ctcp n m) m n }
+        | _, _ => se
+    | _, _ => se) { tetra := env.tetra }
+
+/-- `adjacency['cache']`: pair keys `(n, m) → bool` and atom keys `n → m` of the one Python dict -/
+structure CtMap where
+  pair : List ((Nat × Nat) × Bool) := []
+  atom : List (Nat × Nat) := []
+  deriving Repr, Inhabited
+
+def pairSet (d : List ((Nat × Nat) × Bool)) (k : Nat × Nat) (v : Bool) : List ((Nat × Nat) × Bool) :=
+  match d with
+  | [] => [(k, v)]
+  | (a, x) :: tl => if a == k then (a, v) :: tl else (a, x) :: pairSet tl k v
+
+def isHAtom (m : Mol) (x : Nat) : Bool := match m.atom? x with | some a => a.z == 1 | none => false
+
+/-- atoms with at least one stereo-labelled bond (`stereo_bonds` of `__ct_map`) -/
+def stereoBondAtoms (m : Mol) : List Nat := m.adj.filterMap fun (n, ms) => if ms.any (·.2.stereo.isSome) then some n else none
+
+/-- `if y := ctc.get(v): ct_map[v] = k; seen.add(y)` -/
+def markDiene (se : SEnv) (k v : Nat) (ct : CtMap) (seen : List (Nat × Nat)) : CtMap × List (Nat × Nat) :=
+  match se.ctc.lookup v with
+  | some y => ({ ct with atom := alSet ct.atom v k }, y :: seen)
+  | none => (ct, seen)
+
+/-- body of `for v in vs:` for a terminal `k` whose centre pair is `cs` -/
+def ctInner (m : Mol) (se : SEnv) (k : Nat) (cs : Nat × Nat) (e : Stereo.Ends) :
+    List Nat → CtMap → List (Nat × Nat) → Except Err (CtMap × List (Nat × Nat))
+  | [], ct, seen => .ok (ct, seen)
+  | v :: vs, ct, seen =>
+    if !e.contains v then ctInner m se k cs e vs ct seen
+    else if (ct.pair.lookup (k, v)).isSome then ctInner m se k cs e vs ct seen
+    else match ct.atom.lookup k with
+      | some x =>   -- second substituent of C=
+        match ct.pair.lookup (k, x) with
+        | none => .error .keyError
+        | some s =>
+          let ct1 : CtMap := { ct with pair := pairSet (pairSet ct.pair (k, v) (!s)) (v, k) s }
+          let (ct2, seen2) := markDiene se k v ct1 seen
+          ctInner m se k cs e vs ct2 seen2
+      | none =>
+        if seen.contains cs then
+          match se.ctcp.lookup k with
+          | none => .error .keyError
+          | some o =>
+            match ct.atom.lookup o with
+            | none => .error .keyError
+            | some on =>
+              match ct.pair.lookup (o, on) with
+              | none => .error .keyError
+              | some s0 =>
+                let stored := (m.bond? cs.1 cs.2).bind (·.stereo)
+                match ofPy (Stereo.translateCisTrans se.sct (isHAtom m) k o v on stored none) with
+                | .error er => .error er
+                | .ok t =>
+                  let s := if !t then !s0 else s0
+                  let ct1 : CtMap := { pair := pairSet (pairSet ct.pair (k, v) s) (v, k) (!s), atom := alSet ct.atom k v }
+                  let (ct2, seen2) := markDiene se k v ct1 seen
+                  ctInner m se k cs e vs ct2 seen2
+        else
+          let (ct1, seen1) := markDiene se k v ct seen
+          let ct2 : CtMap := { pair := pairSet (pairSet ct1.pair (v, k) true) (k, v) false, atom := alSet ct1.atom k v }
+          ctInner m se k cs e vs ct2 seen1
+
+/-- `for k, vs in adjacency.items():` -/
+def ctOuter (m : Mol) (se : SEnv) (sb : List Nat) :
+    List (Nat × List Nat) → CtMap → List (Nat × Nat) → Except Err CtMap
+  | [], ct, _ => .ok ct
+  | (k, vs) :: tl, ct, seen =>
+    match se.ctc.lookup k with
+    | some cs =>
+      if sb.contains cs.1 && sb.contains cs.2 then
+        match se.ctt.lookup k with
+        | none => .error .keyError
+        | some term =>
+          match se.sct.lookup term with
+          | none => .error .keyError
+          | some e =>
+            match ctInner m se k cs e vs ct seen with
+            | .error er => .error er
+            | .ok (ct', seen') => ctOuter m se sb tl ct' (cs :: seen')
+      else ctOuter m se sb tl ct (cs :: seen)
+    | none => ctOuter m se sb tl ct seen
+
+/-- `MoleculeSmiles.__ct_map(adjacency)` -/
+def ctMap (m : Mol) (se : SEnv) (adjacency : List (Nat × List Nat)) : Except Err CtMap :=
+  let sb := stereoBondAtoms m
+  if sb.isEmpty then .ok {} else ctOuter m se sb adjacency {} []
+
+/-- what `_format_atom/_format_bond` receive as `adjacency` (with the lazily filled `'cache'` entry) -/
+structure SCtx where
+  first : Nat := 0                               -- `next(x for x in adjacency)`
+  adjacency : List (Nat × List Nat) := []
+  senv : SEnv := {}
+  ct : Except Err CtMap := .ok {}
+  deriving Inhabited
+
+/-- the chirality slot of `_format_atom`: `some true` = `@`, `some false` = `@@` -/
+def stereoMark (m : Mol) (opts : Opts) (sc : SCtx) (n : Nat) (atom : Atom) : Except Err (Option Bool) :=
+  if atom.stereo.isSome && opts.stereo then
+    match sc.senv.allTerm.lookup n with
+    | some (t1, t2) =>
+      match sc.senv.allenes.lookup n, sc.adjacency.lookup t1, sc.adjacency.lookup t2 with
+      | some e, some a1, some a2 => (ofPy (Stereo.writerAlleneMark e a1 a2 (isHAtom m) atom.stereo)).map some
+      | _, _, _ => .error .keyError
+    | none =>
+      match sc.senv.tetra.lookup n, sc.adjacency.lookup n with
+      | some order, some adj =>
+        (ofPy (Stereo.writerTetraMark order adj (isHAtom m) atom.stereo (atom.implH.getD 0) (sc.first == n))).map some
+      | _, _ => .error .keyError
+  else .ok none
+
 /-! ## atom, bond and closure strings -/
 
 def hybridization (m : Mol) (n : Nat) : Nat :=
@@ -367,10 +519,11 @@ def ATok.render (a : ATok) : Str :=
   (match a.map with | some k => 58 :: natStr k | none => []) ++
   (if a.bracket then [93] else [])
 
-/-- `MoleculeSmiles._format_atom(n, adjacency, **kwargs)` for an atom without a written stereo mark -/
-def formatAtom (m : Mol) (opts : Opts) (n : Nat) (mark : Option Bool) : Except Err ATok := do
+/-- `MoleculeSmiles._format_atom(n, adjacency, **kwargs)` -/
+def formatAtom (m : Mol) (opts : Opts) (sc : SCtx) (n : Nat) : Except Err ATok := do
   let atom ← match m.atom? n with | some a => pure a | none => .error .keyError
   let sym ← symbolOf atom.z
+  let mark ← stereoMark m opts sc n atom
   let iso : Option Nat := match atom.isotope with | some i => if i != 0 then some i else none | none => none
   let charge ← if atom.charge != 0 && opts.charges then
       (match chargeStr.lookup atom.charge with | some s => pure s | none => .error .keyError) else pure []
@@ -387,15 +540,22 @@ def formatAtom (m : Mol) (opts : Opts) (n : Nat) (mark : Option Bool) : Except E
   pure { bracket := br, isotope := iso, symbol := if opts.aromatic && hyb == 4 then lower sym else sym,
          stereo := mark, hcount := hc, charge := charge, map := mp }
 
-/-- `MoleculeSmiles._format_bond(n, m, adjacency, **kwargs)` without cis/trans marks -/
-def formatBond (m : Mol) (opts : Opts) (a b : Nat) : Except Err Str :=
+/-- `MoleculeSmiles._format_bond(n, m, adjacency, **kwargs)` -/
+def formatBond (m : Mol) (opts : Opts) (sc : SCtx) (a b : Nat) : Except Err Str :=
   if !opts.bonds then .ok []
   else match m.bond? a b with
     | none => .error .keyError
     | some bd =>
       if bd.order == 4 then .ok (if opts.aromatic then [] else [58])
       else if bd.order == 1 then
-        .ok (if opts.aromatic && hybridization m a == 4 && hybridization m b == 4 then [45] else [])
+        if opts.aromatic && hybridization m a == 4 && hybridization m b == 4 then .ok [45]
+        else if opts.stereo then
+          match sc.ct with
+          | .error e => .error e
+          | .ok ct => match ct.pair.lookup (a, b) with
+            | some x => .ok (if x then [47] else [92])
+            | none => .ok []
+        else .ok []
       else if bd.order == 2 then .ok [61]
       else if bd.order == 3 then .ok [35]
       else .ok [126]
@@ -424,28 +584,28 @@ def WTok.render : WTok → Str
 def renderAll (ts : List WTok) : Str := (ts.map WTok.render).flatten
 
 /-- the bond token in front of a closure number; with `asymmetric_closures` only at the first of the two ends -/
-def closureBond (m : Mol) (opts : Opts) (n k : Nat) (vb : List (Nat × Nat)) : Except Err (List WTok × List (Nat × Nat)) :=
+def closureBond (m : Mol) (opts : Opts) (sc : SCtx) (n k : Nat) (vb : List (Nat × Nat)) : Except Err (List WTok × List (Nat × Nat)) :=
   if opts.asym then
     if vb.contains (n, k) then .ok ([], vb)
-    else match formatBond m opts n k with
+    else match formatBond m opts sc n k with
       | .error e => .error e
       | .ok b => .ok ([WTok.bond b], (k, n) :: vb)
-  else match formatBond m opts n k with
+  else match formatBond m opts sc n k with
     | .error e => .error e
     | .ok b => .ok ([WTok.bond b], vb)
 
 /-- closures of one atom: `for m, c in tokens[token]` after sorting by closure number -/
-def emitClosures (m : Mol) (opts : Opts) (casted : List (Nat × Nat)) (n : Nat) :
+def emitClosures (m : Mol) (opts : Opts) (sc : SCtx) (casted : List (Nat × Nat)) (n : Nat) :
     List (Nat × Nat) → List (Nat × Nat) → Except Err (List WTok × List (Nat × Nat))
   | [], vb => .ok ([], vb)
   | (k, c) :: tl, vb =>
     match casted.lookup c with
     | none => .error .keyError
     | some num =>
-      match closureBond m opts n k vb with
+      match closureBond m opts sc n k vb with
       | .error e => .error e
       | .ok (bt, vb1) =>
-        match emitClosures m opts casted n tl vb1 with
+        match emitClosures m opts sc casted n tl vb1 with
         | .error e => .error e
         | .ok (rest, vb2) => .ok (bt ++ WTok.closure num :: rest, vb2)
 
@@ -456,35 +616,35 @@ def sortedClosures (casted : List (Nat × Nat)) (tokens : List (Nat × List (Nat
   | none => .error .keyError
   | some l => .ok ((sortByNat (fun (x : (Nat × Nat) × Nat) => x.2) l).map (·.1))
 
-def emit (m : Mol) (opts : Opts) (casted : List (Nat × Nat)) (tokens : List (Nat × List (Nat × Nat))) :
+def emit (m : Mol) (opts : Opts) (sc : SCtx) (casted : List (Nat × Nat)) (tokens : List (Nat × List (Nat × Nat))) :
     List FTok → List (Nat × Nat) → Except Err (List WTok × List Nat × List (Nat × Nat))
   | [], vb => .ok ([], [], vb)
   | .atom n :: tl, vb =>
-    match formatAtom m opts n none with
+    match formatAtom m opts sc n with
     | .error e => .error e
     | .ok a =>
       match sortedClosures casted tokens n with
       | .error e => .error e
       | .ok cl =>
-        match emitClosures m opts casted n cl vb with
+        match emitClosures m opts sc casted n cl vb with
         | .error e => .error e
         | .ok (cts, vb1) =>
-          match emit m opts casted tokens tl vb1 with
+          match emit m opts sc casted tokens tl vb1 with
           | .error e => .error e
           | .ok (rest, order, vb2) => .ok (WTok.atom n a :: (cts ++ rest), n :: order, vb2)
   | .bond a b :: tl, vb =>
-    match formatBond m opts a b with
+    match formatBond m opts sc a b with
     | .error e => .error e
     | .ok s =>
-      match emit m opts casted tokens tl vb with
+      match emit m opts sc casted tokens tl vb with
       | .error e => .error e
       | .ok (rest, order, vb') => .ok (WTok.bond s :: rest, order, vb')
   | .lpar :: tl, vb =>
-    match emit m opts casted tokens tl vb with
+    match emit m opts sc casted tokens tl vb with
     | .error e => .error e
     | .ok (rest, order, vb') => .ok (WTok.lpar :: rest, order, vb')
   | .rpar :: tl, vb =>
-    match emit m opts casted tokens tl vb with
+    match emit m opts sc casted tokens tl vb with
     | .error e => .error e
     | .ok (rest, order, vb') => .ok (WTok.rpar :: rest, order, vb')
 
@@ -498,15 +658,24 @@ structure Round where
   tokens : List (Nat × List (Nat × Nat))
   smi : List FTok
   out : List WTok
-  deriving Repr, Inhabited
+  sc : SCtx := {}
+  castedIn : List (Nat × Nat) := []     -- `casted_cycles` / `heap` before and after this round's numbering
+  heapIn : List Nat := []
+  castedOut : List (Nat × Nat) := []
+  heapOut : List Nat := []
+  vbIn : List (Nat × Nat) := []
+  deriving Inhabited
 
 def hasStereo (m : Mol) : Bool :=
   m.atoms.any (fun p => p.2.stereo.isSome) || m.adj.any fun p => p.2.any fun q => q.2.stereo.isSome
 
 def degreeSum (m : Mol) : Nat := (m.adj.map (·.2.length)).sum
 
-def oneRound (m : Mol) (env : Env) (opts : Opts) (groups : List (Int × Int)) (g : Global) :
-    Except Err (Round × List Nat × Global) := do
+def initialHeap : List Nat := (List.range heapHi).filter (heapLo ≤ ·)
+
+/-- first half of one `while True:` iteration: start atom, BFS distances, DFS -/
+def traverse (m : Mol) (env : Env) (opts : Opts) (groups : List (Int × Int)) (g : Global) :
+    Except Err (Nat × List (Nat × Int) × Dfs) := do
   -- iteration order of atoms_set for this round
   let iter ← if opts.random then pure g.atomsSet else match env.setOrders[g.round]? with
     | some l => if l.length == g.atomsSet.length && g.atomsSet.all l.contains then pure l else .error .script
@@ -516,42 +685,73 @@ def oneRound (m : Mol) (env : Env) (opts : Opts) (groups : List (Int × Int)) (g
   let nAtoms := m.atoms.length
   let seen ← if opts.random then pure g.seen
              else bfs m (nAtoms + 1) [(start, 1)] (alSet g.seen start 0)
-  -- DFS
   let (ks0, draws2) ← keysFor env opts groups seen true draws1 ((m.nbrs start).map (·.1))
   let d0 : Dfs := { stack := [{ parent := start, depth := g.atomsSet.length, children := (sortKeyed ks0).map (·.1) }],
                     visited := [(start, [])], cycle := g.cycle, draws := draws2 }
   let d ← dfsRun m env opts groups seen (2 * (degreeSum m + nAtoms) + 2) d0
-  let smi := flatten d.edges (nAtoms + 1) start
-  let (casted, heap) ← castAll smi d.tokens (closureAtoms smi d.tokens) g.casted g.heap
-  let (out, order, vb) ← emit m opts casted d.tokens smi g.visitedBond
-  let vis := d.visited.map (·.1)
-  let rest := g.atomsSet.filter fun n => !vis.contains n
-  pure ({ start := start, visited := vis, edges := d.edges, tokens := d.tokens, smi := smi, out := out }, order,
-        { g with atomsSet := rest, seen := seen, cycle := d.cycle, casted := casted, heap := heap, visitedBond := vb,
-                 draws := d.draws, round := g.round + 1 })
+  pure (start, seen, d)
+
+/-- `visited[atom] += closure partners (by number) + tree children` -/
+def adjacencyOf (casted : List (Nat × Nat)) (d : Dfs) : Except Err (List (Nat × List Nat)) :=
+  d.visited.mapM fun (p : Nat × List Nat) =>
+    match sortedClosures casted d.tokens p.1 with
+    | .error e => .error e
+    | .ok cl => .ok (p.1, p.2 ++ cl.map (·.1) ++ alGet d.edges p.1)
+
+/-- second half: flatten, number the closures, complete the neighbour lists, emit -/
+def finishRound (m : Mol) (env : Env) (opts : Opts) (g : Global) (start : Nat) (seen : List (Nat × Int)) (d : Dfs) :
+    Except Err (Round × List Nat × Global) :=
+  let smi := flatten d.edges (m.atoms.length + 1) start
+  match castAll smi d.tokens (closureAtoms smi d.tokens) g.casted g.heap with
+  | .error e => .error e
+  | .ok (casted, heap) =>
+    match adjacencyOf casted d with
+    | .error e => .error e
+    | .ok adjacency =>
+      let se := sEnvOf env
+      let sc : SCtx := { first := start, adjacency := adjacency, senv := se, ct := ctMap m se adjacency }
+      match emit m opts sc casted d.tokens smi g.visitedBond with
+      | .error e => .error e
+      | .ok (out, order, vb) =>
+        let vis := d.visited.map (·.1)
+        .ok ({ start := start, visited := vis, edges := d.edges, tokens := d.tokens, smi := smi, out := out, sc := sc,
+               castedIn := g.casted, heapIn := g.heap, castedOut := casted, heapOut := heap, vbIn := g.visitedBond },
+             order,
+             { g with atomsSet := g.atomsSet.filter (fun n => !vis.contains n), seen := seen, cycle := d.cycle,
+                      casted := casted, heap := heap, visitedBond := vb, draws := d.draws, round := g.round + 1 })
+
+def oneRound (m : Mol) (env : Env) (opts : Opts) (groups : List (Int × Int)) (g : Global) :
+    Except Err (Round × List Nat × Global) :=
+  match traverse m env opts groups g with
+  | .error e => .error e
+  | .ok (start, seen, d) => finishRound m env opts g start seen d
 
 def rounds (m : Mol) (env : Env) (opts : Opts) (groups : List (Int × Int)) :
     Nat → Global → Except Err (List Round × List Nat)
   | 0, _ => .error .fuel
-  | fuel + 1, g => do
-    let (r, order, g') ← oneRound m env opts groups g
-    if g'.atomsSet.isEmpty then pure ([r], order)
-    else do
-      let (rs, order') ← rounds m env opts groups fuel g'
-      pure (r :: rs, order ++ order')
-
-def initialHeap : List Nat := (List.range heapHi).filter (heapLo ≤ ·)
+  | fuel + 1, g =>
+    match oneRound m env opts groups g with
+    | .error e => .error e
+    | .ok (r, order, g') =>
+      if g'.atomsSet.isEmpty then .ok ([r], order)
+      else match rounds m env opts groups fuel g' with
+        | .error e => .error e
+        | .ok (rs, order') => .ok (r :: rs, order ++ order')
 
 /-- `_smiles(weights, _return_order=True, **kwargs)`: the rounds (one per component, in written order) and `order` -/
+def groupsOf (m : Mol) (env : Env) (opts : Opts) : Except Err (List (Int × Int)) :=
+  if opts.random then .ok [] else
+    match m.ids.mapM (weightOf env) with
+    | .error e => .error e
+    | .ok ws => .ok (countGroups ws)
+
+def initialGlobal (m : Mol) (env : Env) : Global := { atomsSet := m.ids, heap := initialHeap, draws := env.draws }
+
 def smilesRounds (m : Mol) (env : Env) (opts : Opts) : Except Err (List Round × List Nat) :=
   if m.atoms.isEmpty then .ok ([], [])
-  else if opts.stereo && hasStereo m then .error .unsupported
-  else do
-    let groups ← if opts.random then pure [] else do
-      let ws ← m.ids.mapM (weightOf env)
-      pure (countGroups ws)
-    rounds m env opts groups (m.atoms.length + 1)
-      { atomsSet := m.ids, heap := initialHeap, draws := env.draws }
+  else match groupsOf m env opts with
+    | .error e => .error e
+    | .ok groups => rounds m env opts groups (m.atoms.length + 1) (initialGlobal m env)
 
 /-- the `string` list: component strings separated by the `delimiter` token -/
 def joinRounds : List Round → List WTok
